@@ -397,7 +397,22 @@ func main() {
 	}
 	for i := 0; i < n; i++ {
 		name := fmt.Sprintf("r%d", i)
-		add(name, "random-mix", "any", randomPkg(r, name))
+		src := randomPkg(r, name)
+		if i%2 == 1 {
+			// derive calls spread over several files (file names sorting before and after the main file): the
+			// order in which the loader happens to parse them must not show in the output
+			parts := strings.Split(src, "\nfunc W")
+			files := []string{parts[0] + "\n", "package " + name + "\n", "package " + name + "\n", "package " + name + "\n"}
+			for k, w := range parts[1:] {
+				files[k%4] += "\nfunc W" + w
+			}
+			write(filepath.Join(name, "a_"+name+".go"), files[1])
+			write(filepath.Join(name, "z_"+name+".go"), files[2])
+			write(filepath.Join(name, "m_"+name+".go"), files[3])
+			src = files[0]
+			stats["multi_file_packages"]++
+		}
+		add(name, "random-mix", "any", src)
 	}
 	sort.Slice(cases, func(i, j int) bool { return cases[i].Pkg < cases[j].Pkg })
 	b, _ := json.MarshalIndent(cases, "", " ")
